@@ -180,6 +180,8 @@ EDGE_BODIES = {
     "cx-index-pairs": "for (int i = 0; i < 2; i = i + 1) { for (int j = 0; j < 2; j = j + 1) { if (i != j) { cx(r[i], r[j]); } } }",
     "cx-index-pairs-including-equal": "for (int i = 0; i < 2; i = i + 1) { for (int j = 0; j < 2; j = j + 1) { cx(r[i], r[j]); } }",
     "cx-alias-handle": "qubit al = a; cx(al, a);",
+    "untaken-branch-declares-two": "false ? qubit ta, tb; : h(a);",
+    "taken-branch-declares-two": "true ? qubit ta, tb; : h(a);",
     "alias-declaration": "qubit al = a; h(al); cx(al, r[0]);",
     "alias-declaration-in-loop": "for (int i = 0; i < 3; i = i + 1) { qubit al = r[1]; x(al); }",
     "angle-overflow-to-inf": "float big = 10000000000.0f; for (int i = 0; i < 12; i = i + 1) { big = big * big; } rx(a, big);",
@@ -190,8 +192,8 @@ EDGE_BODIES = {
     "angle-float-through-type-parameter": "G<float> g = new G<float>(); g.rot(0.5f);",
 }
 EDGE_THETA = {"angle-int-through-type-parameter": 3.0, "angle-float-through-type-parameter": 0.5, "angle-large-finite": 123456.5}
-EDGE_NQ = {"alias-declaration": 5, "alias-declaration-in-loop": 5, "cx-index-pairs": 5, "angle-large-finite": 5}     # pad, a, r[0], r[1], o.q
-EDGE_MUST_RUN = {"alias-declaration", "alias-declaration-in-loop", "cx-index-pairs", "angle-large-finite", "angle-float-through-type-parameter", "angle-int-through-type-parameter"}
+EDGE_NQ = {"untaken-branch-declares-two": 5, "taken-branch-declares-two": 7, "alias-declaration": 5, "alias-declaration-in-loop": 5, "cx-index-pairs": 5, "angle-large-finite": 5}     # pad, a, r[0], r[1], o.q
+EDGE_MUST_RUN = {"untaken-branch-declares-two", "taken-branch-declares-two", "alias-declaration", "alias-declaration-in-loop", "cx-index-pairs", "angle-large-finite", "angle-float-through-type-parameter", "angle-int-through-type-parameter"}
 
 
 def edge_programs():
